@@ -3,6 +3,7 @@
 #include <dsplib/array.h>
 
 #include <cmath>
+#include <cstdint>
 
 namespace dsplib {
 
@@ -16,18 +17,26 @@ public:
     explicit Tuner(int sample_rate, real_t freq)
       : _fs{sample_rate}
       , _freq{freq} {
-        DSPLIB_ASSERT(std::abs(_freq) <= (_fs / 2), "tuner freq must be in range (-fs/2 : fs/2)");
+        DSPLIB_ASSERT(std::abs(_freq) <= (real_t(_fs) / 2), "tuner freq must be in range (-fs/2 : fs/2)");
+        //every _fs samples the phase advances by _freq turns: keep the fractional part of it (unsigned Q0.64, wraps modulo one turn)
+        real_t ipart = 0;
+        const auto frac = static_cast<uint64_t>(std::ldexp(std::modf(std::abs(_freq), &ipart), 64));
+        _turn_step = (_freq < 0) ? (0 - frac) : frac;
     }
 
     arr_cmplx process(const arr_cmplx& x) {
         const int n = x.size();
         arr_cmplx r(n);
         for (int i = 0; i < n; i++) {
-            const real_t phase = 2 * pi * _freq * _phase / _fs;
+            const real_t phase = 2 * pi * _freq * _phase / _fs + 2 * pi * std::ldexp(real_t(_turn), -64);
             const cmplx_t w = {std::cos(phase), std::sin(phase)};
             r[i] = x[i] * w;
             ++_phase;
-            _phase = (_phase < _fs) ? _phase : 0;
+            if (_phase >= _fs) {
+                //the sample counter wraps every _fs samples, the fractional number of turns made so far is carried in _turn
+                _phase = 0;
+                _turn += _turn_step;
+            }
         }
         return r;
     }
@@ -47,7 +56,9 @@ public:
 private:
     int _fs;
     real_t _freq;
-    int _phase{0};
+    int _phase{0};            ///< sample counter modulo _fs
+    uint64_t _turn{0};        ///< phase at the last wrap of the sample counter, in turns (Q0.64)
+    uint64_t _turn_step{0};   ///< fractional part of _freq in turns (Q0.64)
 };
 
 }   // namespace dsplib
